@@ -43,3 +43,27 @@ Theorem C16_entry_values : forall a vs, ea_values a = ea_bytevalues a ->
   ea_values (add_value a vs) = ea_values a ++ vs.
 Proof. exact add_value_preserves. Qed.
 Print Assumptions C16_entry_values.
+
+(* constructors and registration methods *)
+From G Require Import Ldap LdapProofs Response ResponseProofs Mux MuxProofs.
+
+Theorem C16_ctor_total : forall k id dn xs, new_response true k id dn xs <> Panic.
+Proof. exact new_response_total. Qed.
+Print Assumptions C16_ctor_total.
+
+Theorem C16_ctor_pinned_refuted : new_response false KModify 5 [] [] = Panic.
+Proof. exact new_response_pinned_refuted. Qed.
+Print Assumptions C16_ctor_pinned_refuted.
+
+Theorem C16_mux_register_total : forall m,
+  (forall r, register m (RegRoute r None) = (m, false)) /\
+  register m (RegDefault None) = (m, false) /\ register m (RegUnbind None) = (m, false).
+Proof. exact register_nil_rejected. Qed.
+Print Assumptions C16_mux_register_total.
+
+Theorem C16_control_ctor_total : forall g e c, new_behera g e c <> Panic.
+Proof.
+  intros g e c. unfold new_behera.
+  repeat match goal with |- context [if ?b then _ else _] => destruct b end; discriminate.
+Qed.
+Print Assumptions C16_control_ctor_total.
